@@ -9,7 +9,9 @@ import (
 	"testing"
 	"time"
 
+	"github.com/Vedant9500/WTF/internal/database"
 	"github.com/Vedant9500/WTF/internal/metrics"
+	"github.com/Vedant9500/WTF/verifharness/gen"
 	"github.com/Vedant9500/WTF/verifharness/stat"
 	"pgregory.net/rapid"
 )
@@ -284,5 +286,76 @@ func TestC18_Concurrent(t *testing.T) {
 			t.Fatalf("monitor totals after %d concurrent events: %v", n, sum)
 		}
 		rec.Case(true, map[string]any{"goroutines": g, "events_each": k}, "concurrent")
+	})
+}
+
+// TestC18_Wrapper: the monitoring wrapper of the database records every search made through
+// it while monitoring is on - whatever the state of the result cache - and every load.
+func TestC18_Wrapper(t *testing.T) {
+	rec := stat.For("C18")
+	rec.Rule("monitoring wrapper: state machine over MonitoredDatabase - monitored searches (both entry points), cache on/off, cache invalidation, monitoring on/off, monitored loads. Oracle: searches_total, hits+misses and query_length_count equal the number of monitored searches made while monitoring was on; database_operations_total equals the loads made while it was on.")
+	rapid.Check(t, func(t *rapid.T) {
+		cmds := c05DB(t, "cmds")
+		mdb := database.NewMonitoredDatabase(gen.Load(t, cmds))
+		toks := gen.Tokens(cmds)
+		if len(toks) == 0 {
+			toks = []string{"find"}
+		}
+		searches, loads := 0, 0
+		monitoring, caching := true, true
+		var steps []string
+		t.Repeat(map[string]func(*rapid.T){
+			"search": func(t *rapid.T) {
+				q := rapid.SampledFrom(toks).Draw(t, "q")
+				if rapid.Bool().Draw(t, "simple") {
+					mdb.SearchWithMonitoring(q, rapid.IntRange(0, 5).Draw(t, "limit"))
+				} else {
+					mdb.SearchWithOptionsAndMonitoring(q, database.SearchOptions{Limit: 5, UseNLP: rapid.Bool().Draw(t, "nlp"), UseFuzzy: true})
+				}
+				if monitoring {
+					searches++
+				}
+				steps = append(steps, "search")
+			},
+			"cache": func(t *rapid.T) {
+				caching = rapid.Bool().Draw(t, "on")
+				mdb.EnableCache(caching)
+				steps = append(steps, fmt.Sprintf("cache(%v)", caching))
+			},
+			"invalidate": func(t *rapid.T) {
+				mdb.InvalidateCache()
+				steps = append(steps, "invalidate")
+			},
+			"monitoring": func(t *rapid.T) {
+				monitoring = rapid.IntRange(0, 3).Draw(t, "on") > 0
+				mdb.EnableMonitoring(monitoring)
+				if mdb.IsMonitoringEnabled() != monitoring {
+					t.Fatalf("IsMonitoringEnabled()=%v after EnableMonitoring(%v)", mdb.IsMonitoringEnabled(), monitoring)
+				}
+				steps = append(steps, fmt.Sprintf("monitoring(%v)", monitoring))
+			},
+			"load": func(t *rapid.T) {
+				if err := mdb.LoadDatabaseWithMonitoring(gen.Load(t, c05DB(t, "cmds2")).Commands); err != nil {
+					t.Fatalf("LoadDatabaseWithMonitoring: %v", err)
+				}
+				if monitoring {
+					loads++
+				}
+				steps = append(steps, "load")
+			},
+			"": func(t *rapid.T) {
+				sum := map[string]float64{}
+				for _, m := range mdb.GetPerformanceReport().ApplicationMetrics {
+					sum[m.Name] += m.Value
+				}
+				if int(sum["searches_total"]) != searches || int(sum["cache_hits_total"]+sum["cache_misses_total"]) != searches || int(sum["query_length_count"]) != searches {
+					t.Fatalf("after %d monitored searches: searches_total=%v hits+misses=%v query_length_count=%v (cache on=%v, monitoring on=%v); steps=%v", searches, sum["searches_total"], sum["cache_hits_total"]+sum["cache_misses_total"], sum["query_length_count"], caching, monitoring, steps)
+				}
+				if int(sum["database_operations_total"]) != loads {
+					t.Fatalf("after %d monitored loads: database_operations_total=%v; steps=%v", loads, sum["database_operations_total"], steps)
+				}
+			},
+		})
+		rec.Case(searches >= 2, map[string]any{"wrapper": true, "searches": searches, "loads": loads, "steps": len(steps)}, "wrapper")
 	})
 }
